@@ -127,6 +127,12 @@ check("C18", "model_checking",
       "Single-threaded. TrustedProxies is documented as never freed, sequences creating one are excluded from the leak account only. Returned strings / header nodes are released by the harness the way they were allocated.",
       "DESIGN.md 3.6, 4 (C18)", "E6 FFI call-sequence explorer")
 
+check("C19", "exploration",
+      "exhaustive product enumeration (base rule sets x change-sets x examples x hop limits x domains), differential between the incremental and standalone entry-point families, the harness's own proxy-order pipeline and internal consistency of the hop list",
+      "Base sets of <=2 (quick) / <=3 (thorough) rules from a 10-rule alphabet (redirect chains a->b->c, self loop, a->b->a, conditional and exclude-conditional redirects, header/body filters and log override with unit ids, reset, stop, a dynamic rule, an off-domain target; every rule has a second version with the same id; examples incl. must_match:false and an unparsable URL) x change-sets {none, add, add+delete, update, delete, update+delete in both roles} x hop limits x project domains {[], [host]} x example URLs x example status {none, 404, 200} x impact action. Per case: TestExamples, UnitIds, Explain and Impact through *_from_project(Arc<Router>, change-set) and through the standalone entry point on the resulting rule list must serialise identically (match traces compared through the rules they contain, set-valued unit_ids_seen sorted), the standalone test-examples output must be the same for every order of the rule list, the explain response (status, headers, body, log decision) must equal the harness's own pipeline in proxy order, every reported hop list has <= max_hops+1 entries, only redirect hops, Loop iff a (URL, method) repeats, TooManyHops only at the limit, and the shared router's snapshot and answers are unchanged after every project call.",
+      "One open finding (explain/impact skip the request-time phase when the example carries a status code) is listed in known_findings.json.",
+      "DESIGN.md 4 (C19)", "E4 product enumerator")
+
 ALL = [f"C{n:02d}" for n in range(1, 20)]
 
 NOT_BUILT_REASON = "check not built yet in this round (planned, see DESIGN.md section 0); not claimed until its explorer exists and has been shown to detect a seeded change"
